@@ -1,0 +1,54 @@
+//go:build verif
+
+package reader
+
+import (
+	"sync/atomic"
+
+	"github.com/zilliztech/milvus-cdc/core/api"
+)
+
+// VerifPointFunc is called at the named points of the pack pipeline (see verifPoint call sites):
+//
+//	enter / enter-forward : innerHandleReplicateMsg entered (stream or generated pack / forwarded pack)
+//	forward               : handlePack is about to hand the pack to another handler (channelKey = that handler's channel)
+//	computed              : handlePack has computed the output pack; called INSIDE the target-channel lock, record only
+//	presend               : output pack computed, channel lock released, before it is enqueued (may be delayed)
+//	done / done-empty     : innerHandleReplicateMsg returns after enqueueing / without output
+type VerifPointFunc func(point string, channelKey string, msg *api.ReplicateMsg)
+
+var verifPointHook atomic.Pointer[VerifPointFunc]
+
+// SetVerifPointHook installs (or, with nil, removes) the process-wide observer.
+func SetVerifPointHook(f VerifPointFunc) {
+	if f == nil {
+		verifPointHook.Store(nil)
+		return
+	}
+	verifPointHook.Store(&f)
+}
+
+func verifPoint(point string, channelKey string, msg *api.ReplicateMsg) {
+	if f := verifPointHook.Load(); f != nil {
+		(*f)(point, channelKey, msg)
+	}
+}
+
+// VerifTSInfo is a copy of one downstream channel's clock state.
+type VerifTSInfo struct {
+	CurrentTS  uint64
+	LastSendTS uint64
+	QueueLen   int
+}
+
+// VerifTSSnapshot copies the clock state of the channel key (replicateID.channel) under the ts-manager's own key lock.
+func VerifTSSnapshot(channelKey string) (VerifTSInfo, bool) {
+	m := GetTSManager()
+	m.channelTSLocks.RLock(channelKey)
+	defer m.channelTSLocks.RUnlock(channelKey)
+	ts, ok := m.channelTS2.Get(channelKey)
+	if !ok {
+		return VerifTSInfo{}, false
+	}
+	return VerifTSInfo{CurrentTS: ts.cts, LastSendTS: ts.lts, QueueLen: len(ts.targetMsgChan)}, true
+}
